@@ -11,6 +11,7 @@ pub mod c05;
 pub mod c06;
 pub mod c07x;
 pub mod c10;
+pub mod c10x;
 pub mod c11;
 pub mod c12;
 pub mod c13;
